@@ -34,7 +34,7 @@ pub fn stub_uuid() -> uuid::Uuid {
 /// An empty parameter set; harnesses insert what the constructor would have inserted.
 pub fn mk_params(name: &str) -> ParsedParameters {
     ParsedParameters {
-        name: String::from(name),
+        name: kstring(name),
         boolean: Default::default(),
         natural: Default::default(),
         integer: Default::default(),
@@ -112,4 +112,22 @@ pub fn small_c4() -> Coor4D {
 
 pub fn table_c4() -> Coor4D {
     Coor4D([table_f(), table_f(), table_f(), table_f()])
+}
+
+/// A `String` built byte by byte: CBMC constant-propagates the individual stores, whereas the
+/// `memcpy` behind `String::from` leaves the contents opaque to symbolic execution (every
+/// later `match s.as_str()` arm then stays feasible and the path count explodes).
+pub fn kstring(s: &str) -> String {
+    let mut out = String::with_capacity(16);
+    for c in s.chars() {
+        out.push(c);
+    }
+    out
+}
+
+/// Stub for `core::result::unwrap_failed`: the real one formats the error through
+/// `fmt::Debug`, which drags the whole formatting machinery into the model (out of memory).
+/// The stub keeps the panic, drops the message.
+pub fn stub_unwrap_failed(_msg: &str, _error: &dyn core::fmt::Debug) -> ! {
+    panic!("called `Result::unwrap()` on an `Err` value")
 }
